@@ -37,13 +37,11 @@ CHECK_DEADLOCK FALSE
 def behaviours(c, tree, max_arrivals=1, orphan_cap=99, libs=(1,), timeout=900, max_paths=None, rng=None):
     """All transitions of the model over `tree` -> edge-covering behaviours from the initial states."""
     cfgname = "GenAuto_%s_%d.cfg" % (tree, max_arrivals)
-    os.makedirs(os.path.join(c.work, "spec"), exist_ok=True)
-    with open(os.path.join(SPEC_DIR, cfgname), "w") as f:      # written next to the spec, copied by vlib.tlc
+    sd = os.path.join(c.work, "spec")        # vlib.tlc copies the spec files next to it; nothing is written to /verif/spec
+    os.makedirs(sd, exist_ok=True)
+    with open(os.path.join(sd, cfgname), "w") as f:
         f.write(gen_cfg(tree, max_arrivals, orphan_cap, libs))
-    try:
-        gen = vlib.tlc(SPEC_DIR, "MC_ChainDB", cfgname, c.work, workers=1, timeout=timeout)
-    finally:
-        os.remove(os.path.join(SPEC_DIR, cfgname))
+    gen = vlib.tlc(SPEC_DIR, "MC_ChainDB", cfgname, c.work, workers=1, timeout=timeout)
     c.require_ok(gen, "ChainDB transition enumeration over tree %s (arrivals<=%d)" % (tree, max_arrivals))
     trs = vlib.parse_transitions(gen.out)
     if len(trs) < 100:
